@@ -206,7 +206,7 @@ SHRINK_SKIP = {"schema", "packages", "overrides"}
 
 
 def shards(tier, seed):
-    n = 700 if tier == "thorough" else 70
+    n = 4500 if tier == "thorough" else 450
     return [{"seed": seed, "lo": i * n, "hi": (i + 1) * n} for i in range(16)]
 
 
